@@ -180,8 +180,8 @@ def term_text(rng, kind, name, k, f20=False):
     if k == 0 and rng and rng.random() < 0.2:
         sign = '-'
     digits = str(abs(k))
-    if rng and len(digits) >= 2 and rng.random() < 0.1:
-        digits = digits[0] + '_' + digits[1:]            # int('1_0') == 10
+    if rng and not f20 and len(digits) >= 2 and rng.random() < 0.1:
+        digits = digits[0] + '_' + digits[1:]            # int('1_0') == 10   (not together with the planted defect #20: `X [-1_2]` leaves `_2` behind as a name)
     return base + ((rng.choice([' ', '  ', '\t']) if rng else ' ') if f20 else '') + '[' + sp() + sign + digits + sp() + ']'
 
 
@@ -1127,12 +1127,12 @@ def reference_pass(case, floats=False, order=None):
             except (Warning, ZeroDivisionError, OverflowError) as w:
                 exc = type(w).__name__
                 break
+            acc.append(('W', e['lhs'][0], t + e['lhs'][1]))
             try:
                 v = np.float64(v)
-            except OverflowError as w:          # an int no float can hold
+            except OverflowError as w:          # an int no float can hold: the STORE raises (the write access is made, nothing is stored)
                 exc = type(w).__name__
                 break
-            acc.append(('W', e['lhs'][0], t + e['lhs'][1]))
             store[e['lhs'][0]][t + e['lhs'][1]] = np.float64(v)
     return {nm: [lib.fhex(x) for x in row] for nm, row in store.items()}, exc, acc
 
@@ -1175,6 +1175,7 @@ def oracle(case, obs):
     else:
         want = [(st['toks'][0][2], expected_text(st, 'equation'), expected_text(st, 'code'), any(is_f20(tk) for tk in st['toks'])) for st in case['stmts']]
     f20_raw, brace_raw, fused_raw = _raw_classes(case['script']) if kind == 'raw' else (False, False, False)
+    split_lhs = set()        # statements already reported with the (known) defect #20: its leftovers are not reported a second time
     for y, eq, code, f20 in want:
         s = sym.get(y)
         if s is None or s[1] != 'ENDOGENOUS' or s[3] is None:
@@ -1184,6 +1185,7 @@ def oracle(case, obs):
             split = re.search(r'(?:self\._)?%s\[t\]\s+\[' % IDENT, s[3]) is not None
             if (f20 or f20_raw) and split:
                 skip_values = True
+                split_lhs.add(y)
                 bad('code|space-before-index', 'a blank between a name and its index bracket: the lag/lead is lost, code %r instead of %r' % (s[3], code))
             elif fused_raw and re.search(r'(?:%s)self\._' % '|'.join(KWS), s[3]) and s[3].replace('self._', ' self._').split() == code.replace('self._', ' self._').split():
                 bad('code|keyword-fused-with-term', 'a {parameter} / <error> term directly after a keyword: in the code they fuse into one identifier: %r instead of %r' % (s[3], code))
@@ -1238,7 +1240,9 @@ def oracle(case, obs):
                 got = None
             exp = tree_pytokens(e, mode)
             if got != exp:
-                if case.get('f20') and got is not None and _unsplit_index(got) == exp:
+                if case.get('f20') and e['lhs'][0] in split_lhs:
+                    skip_values = True          # `X [-1_2]`: the bracket left behind is lexed on its own (`_2` becomes a name)
+                elif case.get('f20') and got is not None and _unsplit_index(got) == exp:
                     skip_values = True
                     bad('code|space-before-index', 'the %s reads %r: index bracket split from its name, lag/lead lost' % (mode, real))
                 else:
